@@ -3,6 +3,7 @@ package engnode
 import (
 	"fmt"
 	"math/rand"
+	"os"
 	"sort"
 	"strings"
 	"time"
@@ -586,6 +587,14 @@ func genScenario(c *caseRun, rng *rand.Rand, steps int) {
 
 // Run is the engine entry point.
 func Run(out string, seed int64, tier string) error {
+	if os.Getenv("VERIF_NODE_TIMES") != "" {
+		dbgTimes = map[string]time.Duration{}
+		defer func() {
+			for k, v := range dbgTimes {
+				fmt.Fprintf(os.Stderr, "TIME %-24s n=%4d total=%8.2fs avg=%6.1fms\n", k, dbgCount[k], v.Seconds(), v.Seconds()*1000/float64(dbgCount[k]))
+			}
+		}()
+	}
 	rep := emit.NewReport("node", seed, tier)
 	rng := rand.New(rand.NewSource(seed))
 	ncases, steps := 12, 40
